@@ -12,6 +12,20 @@ def fuzz(name, target, fuzztime, workers=8, timeout=None):
     return {"name": name, "kind": "fuzz", "target": target, "thorough": t}
 
 PROPS = {
+    "C15": {
+        "level": "exploration",
+        "jobs": [
+            rapid("pbt", "^TestC15$", {"checks": 20000, "timeout": 300}, {"checks": 400000, "shards": 6, "timeout": 2400}),
+            fuzz("fuzz", "FuzzC15", "90s", timeout=400),
+        ],
+    },
+    "C14": {
+        "level": "exploration",
+        "jobs": [
+            rapid("pbt", "^TestC14$", {"checks": 1500, "timeout": 300}, {"checks": 30000, "shards": 6, "timeout": 2400}),
+            fuzz("fuzz", "FuzzC14", "90s", timeout=400),
+        ],
+    },
     "C13": {
         "level": "exploration",
         "jobs": [
